@@ -215,6 +215,20 @@ def _scc_label(tm, prog, scc):
     imp = [m.name for m in members if m.impl_trait]
     if imp:
         return 'through:' + sorted(imp)[0]
+    # a private recursion entered only through one public wrapper that returns its result (`exec` = `Eval::new(ctx).eval(self)`):
+    # the recursion the public function stands for
+    entries = set()
+    for m in members:
+        for cid in prog.callers.get(m.id, ()):
+            if cid in scc:
+                continue
+            cb = prog.by_id[cid]
+            if cb.is_pub and not cb.is_closure and any(c.ruid == m.id and c.dest['l'] == 0 and not c.dest['p'] for c in cb.live_calls):
+                entries.add(cb.name)
+            else:
+                entries.add(None)
+    if len(entries) == 1 and None not in entries:
+        return 'through:' + next(iter(entries))
     return 'through:' + names[0]
 
 
